@@ -390,12 +390,14 @@ class DeserializationMethodVisitor(
         def factory(constraints: Optional[Constraints], _) -> DeserializationMethod:
             from apischema import settings
 
-            value_map = dict(zip(literal_values(values), values))
+            literals = literal_values(values)
+            # key by class too, because True == 1 == 1.0 (and hash the same)
+            value_map = {(lit.__class__, lit): v for lit, v in zip(literals, values)}
             return LiteralMethod(
                 value_map,
-                preformat_error(settings.errors.one_of, list(value_map)),
+                preformat_error(settings.errors.one_of, list(literals)),
                 self.coercer,
-                tuple(set(map(type, value_map))),
+                tuple(set(map(type, literals))),
             )
 
         return self._factory(factory)
